@@ -202,4 +202,27 @@ prop("C20", "Canonicalising a key sorts its encoding and changes nothing else",
      assumptions=["serialiser stub for a single integer / short text = RFC 8949 shortest-form bytes (needed by "
                   "Label::cmp_canonical)"])
 
+prop("C01", "Untrusted bytes never crash decoding or the processing that follows it",
+     mirsym={"jobs": _jl("c01"), "budget_s": {"quick": 420, "thorough": 2400}, "need_both": False,
+             "only_classes": ("panic", "depth", "nesting", "crash"), "std_config": True},
+     bounds={"quick": "all byte-level entry points (from_slice, from_tagged_slice, protected bstr) of 15 types "
+                      "with the nondeterministic parser stub over inputs within: arrays of the type's arity + 1, "
+                      "nested arrays <= 3, 1 map entry in total, depth 4; follow-ups on every accepted value: "
+                      "to_cbor_value, re-decode, tbs/verify/MAC/decrypt helpers with arbitrary AAD / detached "
+                      "payload; nesting spine counter-signature -> protected header explored to 8 levels "
+                      "symbolically and replayed natively at 2000 levels on a 2 MiB thread",
+             "thorough": "3 map entries in total, depth 5, spine to 64 levels"},
+     outside="ciborium's own totality, recursion limit and allocation behaviour; running time and memory; "
+             "Debug/Display output; Clone/PartialEq of decoded values (derived impls, not executed)",
+     assumptions=["the `std` feature changes no function body: checked on each run by comparing the MIR dumps "
+                  "built with and without it"])
+
+prop("C19", "Builders apply exactly the documented effect of each call, in any order",
+     kani={"quick": ["c19_"], "thorough": ["c19x_"], "timeout": {"quick": 500, "thorough": 1800}, "jobs": 8},
+     bounds={"quick": "every sequence of 3 calls over each builder's public setters / adders / constructors "
+                      "(method chosen symbolically per step), byte vectors of length 0..2, labels: all i64, "
+                      "Value arguments from a leaf palette; reserved-label guards over every i64 label",
+             "thorough": "sequences of 4 calls"},
+     outside="longer sequences; create_* helpers (C06)", assumptions=[])
+
 NOT_APPLICABLE = {}
